@@ -152,10 +152,10 @@ def gen_wrapsof(r, idx):
     return {'src': cls(cdeco, mdeco), 'twin': cls('', ''), 'access': ('inst', f'D{idx}', 'm'), 'kind': form}
 
 
-def wrapsof_cases(rng, n, style=None, tag='wo', calls_per=2):
+def _single_callable_cases(rng, n, gen, scenario, style, tag, calls_per):
     cases = []
     for idx in range(n):
-        S = gen_wrapsof(rng, idx)
+        S = gen(rng, idx)
         P = C.OneProgram(S['src'], S['twin'], f'{tag}{idx}_{rng.randrange(10**9)}')
         try:
             F = {'flavour': 'sync', 'kind': S['kind']}
@@ -170,8 +170,12 @@ def wrapsof_cases(rng, n, style=None, tag='wo', calls_per=2):
             for _ in range(calls_per):
                 st = style if style is not None else rng.choice(['kw', 'kw', 'pos1', 'posall'])
                 pos, kw = C.gen_call(rng, F, desc, st, bad_range=3)
-                body = C.gen_body(rng, desc)
+                body = S.get('body_gen', C.gen_body)(rng, desc)
                 impl = C.execute(P, F, acc, pos, kw, body, 'full')
+                if S.get('fresh_result') and impl['out'] == 'RET:other' and impl['twin']['out'] == 'RET:other':
+                    # the wrapper builds a fresh list from what the body yields: decorated and undecorated call both hand back a new
+                    # (equal) object; the model speaks of the value the body produced
+                    impl = dict(impl, out='RET', twin=dict(impl['twin'], out='RET'))
                 implicit = C.implicit_of(S['kind'], acc)
                 truth = {'realStatic': False, 'realSetter': False, 'realPedantic': True, 'implicit': implicit}
                 mbody = ['raises', 0] if body[0] == 'raises' else (['ret', ["inst", K.IDX[K.U]]] if body[0] == 'retzoo' else body)
@@ -180,10 +184,58 @@ def wrapsof_cases(rng, n, style=None, tag='wo', calls_per=2):
                                     'args': ([["inst", K.IDX[K.U]]] if implicit else []) + pos, 'kw': kw, 'body': mbody},
                               'x': {'access': list(acc), 'kind': S['kind'], 'flavour': 'sync', 'pos': pos, 'kwv': kw, 'body': body, 'ctxmode': 'full',
                                     'src': S['src'], 'twin': S['twin'], 'implicit': implicit, 'needle': None, 'history': [],
-                                    'scenario': 'wrapsof', '_impl': impl}})
+                                    'scenario': scenario, '_impl': impl}})
         finally:
             P.close()
     return cases
+
+
+def wrapsof_cases(rng, n, style=None, tag='wo', calls_per=2):
+    return _single_callable_cases(rng, n, gen_wrapsof, 'wrapsof', style, tag, calls_per)
+
+
+KIND_PRELUDE = """import asyncio as _asyncio
+def as_list(f):
+    @wraps(f)
+    def w(*a, **k): return list(f(*a, **k))
+    return w
+def blocking(f):
+    @wraps(f)
+    def w(*a, **k): return _asyncio.run(f(*a, **k))
+    return w
+"""
+
+
+def list_body(r, desc):
+    """what the body of an `as_list` program hands to `yield from`: a list (so that the wrapper returns an equal, fresh list), now and
+    then with an element of another class, or an exception"""
+    if r.random() < 0.12:
+        return ['raises', r.choice(['Exception', 'BaseException', 'TypeError'])]
+    items = [K.lit(r.randrange(5)) for _ in range(r.randint(0, 3))]
+    if r.random() < 0.25:
+        items.insert(r.randrange(len(items) + 1), K.lit(r.choice(['x', None, 1.5])))
+    return ['ret', K.canon_term(["coll", K.IDX[list], items])]
+
+
+def gen_kindchange(r, idx):
+    """@pedantic above a functools.wraps-based decorator that CHANGES THE KIND of the function it wraps: `as_list` drains a generator
+    function into a list, `blocking` runs a coroutine function to completion.  What @pedantic decorates is a plain function (the
+    wrapper); introspection that looks through `__wrapped__` sees a generator / coroutine function instead"""
+    sig = r.choice(['p0: int', "p0: int, p1: str = 'd'", '', 'p0: List[int]', 'p0: int = 5', '**kwargs: int'])
+    if r.random() < 0.5:
+        ret = r.choice([' -> Iterable[int]', ' -> Iterator[int]', ' -> Iterable[str]'])
+        def mod(dec):
+            return KIND_PRELUDE + (dec + '\n' if dec else '') + f'@as_list\ndef k{idx}({sig}){ret}:\n    yield from _BODY({idx}, locals())\n'
+        return {'src': mod('@pedantic'), 'twin': mod(None), 'access': ('mod', f'k{idx}'), 'kind': 'plain', 'body_gen': list_body, 'fresh_result': True}
+    else:
+        ret = r.choice([' -> int', ' -> None', ' -> str', ' -> List[int]'])
+        def mod(dec):
+            return KIND_PRELUDE + (dec + '\n' if dec else '') + f'@blocking\nasync def k{idx}({sig}){ret}:\n    return _BODY({idx}, locals())\n'
+    return {'src': mod('@pedantic'), 'twin': mod(None), 'access': ('mod', f'k{idx}'), 'kind': 'plain'}
+
+
+def kindchange_cases(rng, n, style='kw', tag='kc', calls_per=2):
+    return _single_callable_cases(rng, n, gen_kindchange, 'kindchange', style, tag, calls_per)
 
 
 def run_impl(cases):
